@@ -380,6 +380,59 @@ fn op_obs(op: &Value) -> OpObs {
     }
 }
 
+
+/// Shares repeated numeric list literals of a Gallina term through
+/// `let zK : list N := [..] in ..` (the same doc strings occur once per style
+/// and probe version): the term denotes the same value and is much smaller.
+fn share_lists(term: &str) -> String {
+    let b = term.as_bytes();
+    let mut counts: BTreeMap<&str, usize> = BTreeMap::new();
+    let mut spans = Vec::new();
+    let mut i = 0;
+    while i < b.len() {
+        if b[i] == b'[' {
+            let mut j = i + 1;
+            while j < b.len() && (b[j].is_ascii_digit() || b[j] == b';') {
+                j += 1;
+            }
+            if j < b.len() && b[j] == b']' && j - i > 10 {
+                let lit = &term[i..=j];
+                *counts.entry(lit).or_default() += 1;
+                spans.push((i, j + 1));
+                i = j + 1;
+                continue;
+            }
+        }
+        i += 1;
+    }
+    let mut names: BTreeMap<&str, String> = BTreeMap::new();
+    let mut lets = String::new();
+    for (lit, n) in &counts {
+        if *n > 1 {
+            let name = format!("z{}", names.len());
+            lets.push_str(&format!("let {} : list N := {} in ", name, lit));
+            names.insert(lit, name);
+        }
+    }
+    if names.is_empty() {
+        return term.to_string();
+    }
+    let mut out = String::with_capacity(term.len() / 2);
+    out.push('(');
+    out.push_str(&lets);
+    let mut pos = 0;
+    for (a, e) in spans {
+        if let Some(n) = names.get(&term[a..e]) {
+            out.push_str(&term[pos..a]);
+            out.push_str(n);
+            pos = e;
+        }
+    }
+    out.push_str(&term[pos..]);
+    out.push(')');
+    out
+}
+
 // ------------------------------------------------------------ batches
 
 struct Batch {
@@ -544,14 +597,14 @@ fn run_batch(b: &Batch, opts: &Opts, only: Option<&[usize]>, out: &mut dyn Write
                 "operations_identical": same,
             }));
         }
-        let coq = format!(
+        let coq = share_lists(&format!(
             "(CDecl {} {} [{}] [{}] [{}])",
             g_attr(d),
             g_bool(raw_ok),
             eps_coq.join(";"),
             unv.join(";"),
             probes_coq.join(";")
-        );
+        ));
         let mut tags = vec![
             format!("kind:{}", d.kind),
             format!("method:{}", d.method),
